@@ -45,6 +45,9 @@ type outRow struct {
 var srv *rig.Server
 
 func query(swamp string, q reqSpec, f *hydrapb.FilterGroup, keysOnly bool) ([]*hydrapb.GetByIndexStreamResponse, error) {
+	if q.Many {
+		return queryMany(swamp, q, f, keysOnly)
+	}
 	in := &hydrapb.GetByIndexStreamRequest{IslandID: 1, SwampName: swamp, IndexType: q.Idx,
 		From: q.From, Limit: q.Limit, MaxResults: q.Max, ExcludeKeys: q.Exc, IncludedKeys: q.Inc, KeysOnly: keysOnly, Filters: f}
 	if q.Desc {
@@ -59,6 +62,41 @@ func query(swamp string, q reqSpec, f *hydrapb.FilterGroup, keysOnly bool) ([]*h
 	st := &fakeStream{ctx: context.Background()}
 	err := srv.GW.GetByIndexStream(in, st)
 	return st.out, err
+}
+
+type fakeManyStream struct {
+	grpc.ServerStream
+	ctx context.Context
+	out []*hydrapb.GetByIndexStreamFromManyResponse
+}
+
+func (f *fakeManyStream) Context() context.Context { return f.ctx }
+func (f *fakeManyStream) Send(r *hydrapb.GetByIndexStreamFromManyResponse) error {
+	f.out = append(f.out, r)
+	return nil
+}
+
+// queryMany sends the same request as the single query of GetByIndexStreamFromMany (the second
+// site of the route selection); the per-query semantics are those of GetByIndexStream.
+func queryMany(swamp string, q reqSpec, f *hydrapb.FilterGroup, keysOnly bool) ([]*hydrapb.GetByIndexStreamResponse, error) {
+	sq := &hydrapb.SwampQuery{IslandID: 1, SwampName: swamp, IndexType: q.Idx,
+		From: q.From, Limit: q.Limit, MaxResults: q.Max, ExcludeKeys: q.Exc, IncludedKeys: q.Inc, KeysOnly: keysOnly, Filters: f}
+	if q.Desc {
+		sq.OrderType = hydrapb.OrderType_DESC
+	}
+	if q.FT != nil {
+		sq.FromTime = ts(*q.FT)
+	}
+	if q.TT != nil {
+		sq.ToTime = ts(*q.TT)
+	}
+	st := &fakeManyStream{ctx: context.Background()}
+	err := srv.GW.GetByIndexStreamFromMany(&hydrapb.GetByIndexStreamFromManyRequest{Queries: []*hydrapb.SwampQuery{sq}}, st)
+	out := make([]*hydrapb.GetByIndexStreamResponse, 0, len(st.out))
+	for _, r := range st.out {
+		out = append(out, &hydrapb.GetByIndexStreamResponse{Treasure: r.Treasure, Meta: r.Meta})
+	}
+	return out, err
 }
 
 func rows(rs []*hydrapb.GetByIndexStreamResponse) []outRow {
@@ -328,9 +366,9 @@ func runQueryCase(swamp string, q reqSpec, contents []recObs, phase string) case
 	for i, r := range ordRs {
 		ord[i] = r.GetTreasure().GetKey()
 	}
-	accRs, err1 := query(swamp, q, q.F, true)
+	accRs, err1 := query(swamp, q, q.F, !q.Full)
 	wrapped := &hydrapb.FilterGroup{Logic: hydrapb.FilterLogic_OR, SubGroups: []*hydrapb.FilterGroup{q.F}}
-	scanRs, err2 := query(swamp, q, wrapped, true)
+	scanRs, err2 := query(swamp, q, wrapped, !q.Full)
 	if err1 != nil || err2 != nil {
 		panic(fmt.Sprintf("query error: %v / %v", err1, err2))
 	}
@@ -345,6 +383,20 @@ func runQueryCase(swamp string, q reqSpec, contents []recObs, phase string) case
 	if q.From != 0 || q.Limit != 0 {
 		hist = append(hist, "paged")
 	}
+	if q.Many {
+		hist = append(hist, "rpc:GetByIndexStreamFromMany")
+	}
+	if q.Full {
+		hist = append(hist, "keys_only:false")
+	}
+	switch {
+	case q.FT != nil && q.TT != nil:
+		hist = append(hist, "window:both")
+	case q.FT != nil:
+		hist = append(hist, "window:from_only")
+	case q.TT != nil:
+		hist = append(hist, "window:to_only")
+	}
 	if len(acc) > 0 || len(scan) > 0 {
 		hist = append(hist, "nonempty_output")
 	}
@@ -353,7 +405,7 @@ func runQueryCase(swamp string, q reqSpec, contents []recObs, phase string) case
 			swamp, q.Idx, q.Desc, q.From, q.Limit, q.Max, q.FT != nil, q.TT != nil, groupJSON(q.F), acc, scan)
 	}
 	d := map[string]interface{}{"swamp": swamp, "phase": phase, "idx": q.Idx.String(), "desc": q.Desc, "from": q.From, "limit": q.Limit,
-		"max": q.Max, "from_time": q.FT, "to_time": q.TT, "include": q.Inc, "exclude": q.Exc, "filter": groupJSON(q.F),
+		"max": q.Max, "rpc_from_many": q.Many, "keys_only": !q.Full, "from_time": q.FT, "to_time": q.TT, "include": q.Inc, "exclude": q.Exc, "filter": groupJSON(q.F),
 		"accelerated_out": acc, "fullscan_out": scan, "beacon_order": ord, "records": len(contents)}
 	return caseOut{term: term, descr: d, nontrivial: len(acc) > 0 || len(scan) > 0, hist: hist}
 }
@@ -403,18 +455,28 @@ func runScenario(id int, r *common.Rng, nq int, allowRaw bool) []caseOut {
 		sort.Strings(ks)
 		return ks
 	}
+	var dead []string
 	mutate := func(k int) {
 		for i := 0; i < k; i++ {
 			ks := liveKeys()
 			switch c := r.Intn(10); {
-			case c < 3:
+			case c < 2:
 				insert()
+			case c < 3:
+				if len(dead) > 0 { // a deleted key comes back (fresh Treasure, fresh timestamps)
+					key := dead[r.Intn(len(dead))]
+					setKV(swamp, newKV(key, true))
+					live[key] = true
+				} else {
+					insert()
+				}
 			case c < 8 && len(ks) > 0:
 				setKV(swamp, newKV(ks[r.Intn(len(ks))], false))
 			case len(ks) > 1:
 				key := ks[r.Intn(len(ks))]
 				delKey(swamp, key)
 				delete(live, key)
+				dead = append(dead, key)
 			}
 		}
 	}
@@ -456,7 +518,7 @@ func main() {
 	srv.Register("c08/*/*", true, 3600, 1, 8192)
 	rng := common.NewRng(args.Seed, "C08")
 
-	nsc, nq := 120, 5
+	nsc, nq := 100, 5
 	if args.Tier == "thorough" {
 		nsc, nq = 500, 6
 	}
@@ -479,6 +541,7 @@ func main() {
 	convCases(run)
 	witnessCases(run)
 	matrixCases(run)
+	gridCases(run)
 	srv.Stop()
 	run.Finish("check_all")
 }
